@@ -1011,6 +1011,12 @@ where
                 .value(i)
                 .to_usize()
                 .ok_or_else(|| ArrowError::ComputeError("Cast to usize failed".to_string()))?;
+            if index >= list.len() {
+                return Err(ArrowError::ComputeError(format!(
+                    "Array index out of bounds, cannot get item at index {index} from {} entries",
+                    list.len()
+                )));
+            }
             let start = list.value_offset(index) as <UInt32Type as ArrowPrimitiveType>::Native;
 
             // Safety: Range always has known length.
